@@ -7,7 +7,7 @@ log = open(f'/var/tmp/lab/confirm_{name}.log').read()
 wo = re.search(r'demo_without_patch_exit=(\d+)', log); wi = re.search(r'demo_with_patch_exit=(\d+)', log)
 suite = re.search(r'suite: (.*)', log)
 assert wo and wi and suite, "confirmation incomplete"
-ok = wo.group(1) == '0' and wi.group(1) != '0' and "stable_failing []" in suite.group(1) and suite.group(1).rstrip().endswith("stable_missing 0")
+ok = wo.group(1) == '0' and wi.group(1) != '0' and "stable_failing []" in suite.group(1) and re.search(r"stable_missing (\[\] )?0$", suite.group(1).rstrip()) is not None
 d = f'/verif/seeded/{name}'
 os.makedirs(d, exist_ok=True)
 shutil.copy(f'{mut}/patch.diff', f'{d}/patch.diff'); shutil.copy(f'{mut}/demo.rs', f'{d}/demo.rs')
